@@ -1,6 +1,14 @@
 package main
 
 func init() {
+	// Atomic(f): one scheduling point, then f runs without preemption (harness monitors).
+	symNatives["Atomic"] = func(m *Machine, fr *frame, a []Value) Value {
+		m.visible(fr, "harness-atomic")
+		m.atomicSection++
+		defer func() { m.atomicSection-- }()
+		m.call(fr, 0, a[0], nil)
+		return nil
+	}
 	// CrcBound(k): checksummed data of symbolic length < k is case-split by length; longer
 	// data gets the range-UF over-approximation (k = 0 restores the ConcBound default).
 	symNatives["CrcBound"] = func(m *Machine, fr *frame, a []Value) Value {
